@@ -107,6 +107,7 @@ def gen_times(r, N, mode):
 def gen_positions(r, tm):
     """query positions (tag, exact value in the trajectory's time unit, bare_only)"""
     T = tm["T"]
+    only = tm.get("only_samples")
     span = T[-1] - T[0]
     if tm["lattice"] is not None:
         step = 4 * tm["lattice"] * r.randint(1, 9)
@@ -115,6 +116,8 @@ def gen_positions(r, tm):
         step = Fr(float(step * Fr(r.randint(1, 16), 8)))
     pos = [("before", T[0] - step, False), ("far_before", T[0] - 1024 * (span + step), False)]
     for i, t in enumerate(T):
+        if only is not None and i not in only:
+            continue
         pos.append(("on", t, False))
         f = float(t)
         pos.append(("just_below", Fr(math.nextafter(f, -math.inf)), True))
@@ -733,7 +736,32 @@ def run_wide(case):
             "sample": {"kind": "wide grid", "grid": [w, hh, d], "cells": C, "probed_cells": len(cells)}}
 
 
+def run_long(case):
+    """trajectories of 1024 / 1025 / 1600 / 5000 samples (a look-up that switches to bisection beyond some length must still
+    answer like the scan): the three policies around the first, the last and ~40 other samples, in all query forms"""
+    use_repo()
+    import numpy as np
+    import strengths as st
+    sd, idx = case["seed"], case["idx"]
+    r = gen.rng_for(sd, "C17long", idx)
+    cx = Ctx({k: case[k] for k in ("kind", "seed", "idx")})
+    N = [1024, 1025, 1600, 5000, 257, 4097][idx % 6]
+    net = st.RDNetwork([st.Species("A", density=0)], [])
+    system = st.RDSystem(net, st.RDGridSpace(w=1, h=1, d=1))
+    tm = gen_times(r, N, "grid" if idx % 2 == 0 else "float")
+    tm["only_samples"] = {0, 1, 2, N - 1, N - 2, 1023 % N, 1024 % N, 1025 % N, 255, 256} | {r.randrange(N) for _ in range(30)}
+    tsys = (r.choice(list(si.SPACE)), tm["unit"], r.choice(list(si.QUANTITY)))
+    tunits, twant = make_units(st, r, tsys, T_DIM, tm["unit"])
+    tr = st.RDTrajectory(data=st.UnitArray(np.arange(N, dtype=float), "molecule"), t_sample=st.UnitArray([float(t) for t in tm["T"]], tunits), system=system)
+    cx.extra = {"samples": N, "t_unit": tm["unit"]}
+    check_lookup(st, tr, tm, r, cx)
+    cx.count("long_lookup_trajectories")
+    return {"key": "long-%d-%d" % (N, idx), "nontrivial": True, "bad": cx.bad, "counts": cx.counts, "sample": {"kind": "long look-up", "samples": N}}
+
+
 def run_case(case):
+    if case["kind"] == "long":
+        return run_long(case)
     if case["kind"] == "wide":
         return run_wide(case)
     return run_sim(case) if case["kind"] == "sim" else run_shape(case)
@@ -783,7 +811,7 @@ def main():
                 "species_label_checks", "species_object_checks", "cell_tuple_checks", "cell_object_checks",
                 "lookup_closest", "lookup_infeq", "lookup_supeq", "lookup_exact_ties", "lookup_on_sample",
                 "lookup_none_expected", "lookup_form_number", "lookup_form_str", "lookup_form_unitvalue",
-                "sim_trajectories", "sim_lookup_trajectories", "wide_grid_position_checks")
+                "sim_trajectories", "sim_lookup_trajectories", "wide_grid_position_checks", "long_lookup_trajectories")
     sd = seed()
     cases = []
     sweep = [(n, s, c) for n in range(1, hi + 1) for s in range(1, hi + 1) for c in range(1, hi + 1)]
@@ -801,6 +829,8 @@ def main():
         cases.append({"kind": "sim", "seed": sd, "idx": i})
     for i in range(400 if thorough else 60):
         cases.append({"kind": "wide", "seed": sd, "idx": i})
+    for i in range(60 if thorough else 12):
+        cases.append({"kind": "long", "seed": sd, "idx": i})
     # heavy first so that the round-robin shares are balanced
     order = sorted(range(len(cases)), key=lambda k: -(cases[k].get("N", 3) * cases[k].get("S", 2) * cases[k].get("C", 3)))
     cases = [cases[k] for k in order]
